@@ -15,13 +15,13 @@ CLAIMS = {
  'C05': ('3/C05', 'call-binding against a frozen NumPy signature table + axis/dim typestate + CFG dominance of validation guards + operator table',
          'Decides argument plumbing of forward kernels and wrappers, dim normalisation, validation-before-kernel dominance, the operator/reflected-operator table, iteration protocol and constructor plumbing; NumPy value semantics are not decided.'),
  'C06': ('3/C06 and 8.2', 'partial evaluation with path enumeration over a shape-level abstract domain (symbolic arrays, polynomial normal form) for conv_tools and the Loss reduction dispatch + geometry typestate + call binding of layers',
-         'Decides int-or-tuple geometry normalisation, the output-size formula at all sites, empty-output rejection, padding constants, batch-norm statistic choice and variance forms, exhaustive string-mode dispatch and layer->functional plumbing; window layout and value equality with PyTorch are not decided.'),
+         'Decides int-or-tuple geometry normalisation, the output-size formula at all sites, empty-output rejection, padding constants, per-element definitions of activations / losses as terms, batch-norm statistic choice and variance forms, exhaustive string-mode dispatch and layer->functional plumbing; window layout and value equality with PyTorch are not decided.'),
  'C07': ('3/C07', 'template rules + CFG dominance of guards + typestate of the context managers + truth tables',
          'Decides requires_grad propagation/attachment for all 48 ops, the constructor flag formula, the five flag guards, save-on-enter/restore-on-exit stack discipline of no_grad/retain_grads, no-buffer-without-requires_grad and the release predicate.'),
  'C08': ('3/C08 and 8.2', 'may-alias abstract interpretation + control-dependence facts + partial evaluation of step() to polynomial normal forms under all flag valuations',
          'Decides ownership of optimizer state, in-place update, frozen-parameter guards, no_grad region, step counter, and equality of the SGD/Adam/AdamW updates with the published rules for every valuation of the configuration predicates; floating-point trajectories are not decided.'),
- 'C09': ('3/C09', 'abstract interpretation over a sign/magnitude (overflow) domain of the 14 stability-critical kernels',
-         'Decides absence of Inf/NaN hazards (exp of a possibly positive unbounded argument reaching a product with a possibly-zero value, a difference/quotient of unbounded values, a log or a result) and of epsilon-clipping of underflowing probabilities; accuracy to single precision is not decided.'),
+ 'C09': ('3/C09 and 8.2', 'abstract interpretation over a sign/magnitude (overflow) domain of the 14 stability-critical kernels + exp/log term normal form (stabilised formula = mathematical definition)',
+         'Decides absence of Inf/NaN hazards (exp of a possibly positive unbounded argument reaching a product with a possibly-zero value, a difference/quotient of unbounded values, a log or a result) and of epsilon-clipping of underflowing probabilities, and that each stabilised forward formula equals its mathematical definition as a term (shifts cancel exactly); accuracy to single precision is not decided.'),
  'C10': ('3/C10', 'abstract interpretation (dtype provenance lattice, NumPy-2 promotion) + def-use/dominance on Tensor.__init__ and the seed path',
          'Decides that NumPy-scalar results keep their dtype in the constructor, that every forward kernel result follows the operand dtype, and that gradient buffers take dtype/shape from the tensor (zeros_like, += only, converted and shape-checked seed); float32/float64 numerical agreement is not decided.'),
  'C11': ('3/C11', 'may-alias abstract interpretation of all kernels + who-may-write scan + positive-control fixture',
@@ -30,8 +30,8 @@ CLAIMS = {
          'Decides exclusive/replacing registration, registry ordering and writers, identity de-duplication of parameters(), num_params counters, train/eval recursion, parameter loops, base-class discipline of all Module subclasses and Sequential order/composition.'),
  'C13': ('3/C13 and 8.2', 'partial evaluation with path enumeration: layer, functional wrapper and kernel composed under 16 mode valuations, output / stored terms compared in polynomial normal form',
          'Decides Dropout eval identity / single draw / mask orientation / 1/(1-p) scale / product op, BatchNorm statistic choice and update predicate composed over layer, wrapper and kernel, single counter increment, documented moving-average forms; distributions and numerical statistics are not decided.'),
- 'C14': ('3/C14', 'composition-tree extraction over the call graph and tree equality for the by-construction identities',
-         'Decides the identities that hold by construction in this code base (one side implemented through the other); natively re-implemented sides are reported as undecided, value equality is not decided.'),
+ 'C14': ('3/C14 and 8.2', 'composition-tree extraction over the call graph and tree equality for the by-construction identities + exp/log term normal form of partially evaluated kernels for two native identities',
+         'Decides the identities that hold by construction in this code base (one side implemented through the other); two native forward identities (log_softmax = log softmax, BCE-with-logits = BCE sigmoid) are decided as term identities; the other natively re-implemented sides are reported as undecided, numerical value equality is not decided.'),
  'C15': ('3/C15 and 8.2', 'partial evaluation of every initialiser to polynomial normal forms with rational exponents (sampler arguments by role) + effect scan',
          'Decides that the documented scale formulas reach the sampler parameters in the right role (std vs variance), fan computation, gain table, mode selection and object effects of every filler; sample statistics are not decided.'),
  'C16': ('3/C16 and 8.2', 'partial evaluation with path enumeration over a shape-level abstract domain (symbolic arrays: layout ops, shapes, strides, evaluated slices) + linearity-domain scatter rule',
